@@ -23,6 +23,12 @@ user body), start(), stop(), ~AsyncLoop() and the constructor (see DESIGN.md sec
            tasking::schedule), and the closure owns its state: shared_ptr captured by value, nothing captured by
            reference, no `this`.
 
+  R-C03-5  acknowledgement flags.  Busy-wait loops are found structurally (a CFG cycle in stop() / the destructor or a helper
+           they call whose exits branch on loads of atomic AsyncLoopData members).  For every value the destructor waits for, each
+           exit path of the loop closure ends with that value stored (must-write on all exits; the initial value counts when
+           nothing is stored), unless the wait has an exit that does not depend on a flag.  stop()'s wait on insideLoopBody is
+           the handshake of R-C03-1 and is kept live by R-C03-2.
+
 Calls to functions defined in AsyncLoop.h itself (private/static helpers, AsyncLoopData members, closures that are invoked
 directly) are followed: the callee's CFG is explored from the state at the call site, so the event sequence, the lock state
 and constant boolean results are carried through (rkstatic.x_sync.Inliner); recursion makes the instance undecided.  A plain
@@ -63,7 +69,7 @@ MTX = (DATA, 'runningMutex')
 FLAGS = (ALIVE, RUN, INSIDE)
 SCHEDULE = 'rkcommon::tasking::schedule'
 
-R1, R2, R3, R4 = 'R-C03-1', 'R-C03-2', 'R-C03-3', 'R-C03-4'
+R1, R2, R3, R4, R5 = 'R-C03-1', 'R-C03-2', 'R-C03-3', 'R-C03-4', 'R-C03-5'
 CLOSURE = 'AsyncLoop::AsyncLoop/loop-closure'
 
 
@@ -141,7 +147,7 @@ class Env:
         self.inl = Inliner(tu, lambda cf: tu.fn_file(cf) == FILE)
         self.fids = set()         # declarations that denote the user functor (constructor parameter + helper parameters)
         self.enabling = set()     # (field, value) stores that can turn a wait predicate true
-        self.counts = {R1: 0, R2: 0, R3: 0, R4: 0}
+        self.counts = {R1: 0, R2: 0, R3: 0, R4: 0, R5: 0}
         self.launch_kinds = set()
 
     def count(self, rule, n=1):
@@ -1135,6 +1141,170 @@ def check_loop_exit(E, f, lam, op):
                (', '.join('%s == %s' % (k[1], str(v).lower()) for k, v in sorted(fixed.items())), len(fns)), tu.fn_loc(op))
 
 
+def initial_flag_value(E, name):
+    """value of the boolean-literal default member initialiser of AsyncLoopData::<name>, else None"""
+    tu = E.tu
+    val = None
+    for c in tu.fns(q=DATA + '::AsyncLoopData', dep=False):
+        g = tu.cfg(c)
+        if g is None or c.get('ctor') != 'default':
+            continue
+        for b, i, e in g.elements():
+            if e[0] == 'I' and e[3] == name:
+                fd = tu.node(e[2])
+                lits = [x for x in tu.walk(fd) if x.get('kind') == 'CXXBoolLiteralExpr'] if fd is not None else []
+                if len(lits) == 1:
+                    val = bool(lits[0].get('value'))
+    return val
+
+
+def find_spins(E, f):
+    """busy-wait loops in f and the helpers it calls: [(function, block, alternatives, escapes)].
+    A spin is a cycle of the CFG whose header branches on a load of an atomic AsyncLoopData member; `alternatives` are the
+    (member, value) pairs that let the thread leave the cycle; `escapes` is True when some edge leaves the cycle on a condition
+    that is not such a flag test (the wait has another way out)."""
+    tu, sy = E.tu, E.sy
+
+    def loaded_field(e):
+        a = sy.atomic_op(tu.strip(e, casts=True)) if e is not None else None
+        if a is not None and a['op'] == 'load' and a['field'] is not None and a['field'][0] == DATA:
+            return a['field']
+        return None
+
+    def flag_edge(b, si, fn=None):
+        atom, truth = sy.edge_truth(b, si)
+        fl = loaded_field(atom)
+        if fl is not None:
+            return fl, truth
+        # a local that only ever holds loads of one flag (`bool inside = flag; while (inside) { ...; inside = flag.load(); }`)
+        var = sy.local_var(atom) if atom is not None else None
+        d = tu.node(var) if var is not None else None
+        if d is not None and d.get('kind') == 'VarDecl' and fn is not None and tu.body(fn) is not None:
+            defs = [tu.kids(d)[-1]] if tu.kids(d) else []
+            for x in tu.walk(tu.body(fn)):
+                if x.get('kind') == 'BinaryOperator' and x.get('opcode') == '=' and sy.local_var(tu.kids(x)[0]) == var:
+                    defs.append(tu.kids(x)[1])
+                elif x.get('kind') in ('CompoundAssignOperator', 'UnaryOperator') and x.get('opcode') not in ('!', '-', '+', '*') \
+                        and tu.kids(x) and sy.local_var(tu.kids(x)[0]) == var:
+                    return None, None
+            fls = {loaded_field(x) for x in defs}
+            if len(fls) == 1 and None not in fls:
+                return fls.pop(), truth
+        return None, None
+
+    out = []
+    for fn in E.inl.reachable_fns(f):
+        g = tu.cfg(fn)
+        succ = {b.id: [t for t in b.succ if t is not None] for b in g.blocks.values()}
+
+        def reach_from(start):
+            seen, todo = {start}, [start]
+            while todo:
+                x = todo.pop()
+                for t in succ[x]:
+                    if t not in seen:
+                        seen.add(t)
+                        todo.append(t)
+            return seen
+
+        for b in g.blocks.values():
+            if not b.cond or len(b.succ) != 2 or None in b.succ:
+                continue
+            fld, _t = flag_edge(b, 0, fn)
+            if fld is None:
+                continue
+            stay = [si for si in (0, 1) if b.id in reach_from(b.succ[si])]
+            if len(stay) != 1:
+                continue            # not a loop header (0) or nested in an outer loop such that both sides come back (2)
+            inside = {x for x in reach_from(b.succ[stay[0]]) if b.id in reach_from(x)} | {b.id}
+            alts, escapes = set(), False
+            for x in inside:
+                blk = g.blocks[x]
+                for si, t in enumerate(blk.succ):
+                    if t is None or t in inside:
+                        continue
+                    fl, truth = flag_edge(blk, si, fn) if (blk.cond and len(blk.succ) == 2) else (None, None)
+                    if fl is None:
+                        escapes = True
+                    else:
+                        alts.add((fl, truth))
+            out.append((fn, b, alts, escapes))
+    return out
+
+
+def check_acks(E, closures):
+    """R-C03-5: every flag the destructor busy-waits on is given by the loop thread on each of its exit paths."""
+    ctx, tu, sy = E.ctx, E.tu, E.sy
+    # stop(): the spin on insideLoopBody is discharged by R-C03-1 / R-C03-2
+    for fn, b, alts, escapes in find_spins(E, E.stop):
+        E.count(R5)
+        inst = 'busy-wait in %s [%s]' % (fn['q'].replace('rkcommon::tasking::', ''), tu.config)
+        loc = tu.loc(tu.node(b.cond))
+        if escapes or alts == {(INSIDE, False)}:
+            ctx.ok(R5, inst, 'waits for insideLoopBody == false: the loop thread never sleeps with the flag set (R-C03-2)', loc)
+        else:
+            ctx.undecided(R5, inst, 'stop() busy-waits on %s: not modelled' % sorted('%s == %s' % (a[0][1], a[1]) for a in alts), loc)
+    for fn, b, alts, escapes in find_spins(E, E.dtor):
+        E.count(R5)
+        what = ' or '.join(sorted('%s == %s' % (a[0][1], str(a[1]).lower()) for a in alts))
+        inst = 'busy-wait of the destructor on %s [%s]' % (what, tu.config)
+        loc = tu.loc(tu.node(b.cond))
+        if escapes:
+            ctx.ok(R5, inst, 'the wait has another way out (an exit that does not depend on a flag)', loc)
+            continue
+        fields = {a[0] for a in alts}
+        # who writes these flags?
+        loop_fns = set()
+        for f, cl in closures:
+            for lam, op in cl:
+                loop_fns |= {x['id'] for x in E.inl.reachable_fns(op)}
+        other = False
+        for fn2 in tu.functions.values():
+            if fn2['dep'] or tu.cfg(fn2) is None or tu.fn_file(fn2) != FILE or fn2['id'] in loop_fns:
+                continue
+            for _b, _i, n in tu.cfg(fn2).stmts():
+                a = sy.atomic_op(n)
+                if a is not None and a['op'] in ('store', 'rmw') and a['field'] in fields and (a['value'] is None or (a['field'], a['value']) in alts):
+                    other = True
+        if other:
+            ctx.undecided(R5, inst, 'the awaited flag is also given by code outside the loop thread: not modelled', loc)
+            continue
+        for f, cl in closures:
+            for lam, op in cl:
+                found = Found(E.inl)
+                init = frozenset((fl, initial_flag_value(E, fl[1])) for fl in fields)
+
+                def transfer(blk, i, e, st):
+                    if e[0] == 'AD' and ('AsyncLoop' in (e[3] or '') or (e[3] or '').startswith('rkcommon::')):
+                        found.und(R5, 'a local object of the class type %s is destroyed in the loop thread: its destructor is not '
+                                  'followed' % e[3], None)
+                    ev = sy.event(e)
+                    if ev is not None and ev[0] == 'store' and ev[1] in fields:
+                        return [frozenset({p for p in st if p[0] != ev[1]} | {(ev[1], ev[2])})]
+                    if ev is not None and ev[0] == 'rmw' and ev[1] in fields:
+                        found.und(R5, 'read-modify-write on the awaited flag %s: not modelled' % ev[1][1], ev[3])
+                    return [st]
+
+                res, outs = E.inl.explore(op, [init], transfer, None, C03Hooks(E, found, R5))
+                for (st, _rv, via) in outs:
+                    vals = dict(st)
+                    if any(vals.get(fl) == v for (fl, v) in alts):
+                        continue
+                    if any(vals.get(fl) is None for (fl, _v) in alts):
+                        found.und(R5, 'value of the awaited flag at an exit of the loop thread is not a constant', None)
+                        continue
+                    ents = [k for k in res.pred if k[0] == via]
+                    rets = [n for (bb, ii, n) in tu.cfg(op).stmts() if bb.id == via and n.get('kind') == 'ReturnStmt']
+                    found.viol(R5, CLOSURE, 'exit-without-' + '-'.join(sorted(fl[1] for fl in fields)),
+                               'the destructor busy-waits until %s, but the loop thread can leave through this exit with %s: the '
+                               'acknowledgement is never given and the destructor never returns'
+                               % (what, ', '.join('%s == %s' % (fl[1], str(v).lower()) for fl, v in sorted(vals.items()))),
+                               rets[0] if rets else None, ents[0] if ents else None)
+                inst2 = '%s; exits of the loop closure of %s' % (inst, f['fty'])
+                emit(ctx, tu, tu.cfg(op), res, found, inst2, (R5,), loc,
+                     {R5: 'every exit of the loop thread leaves the awaited flag set as awaited'})
+
+
 def check_initial(E):
     """R-C03-3: threadShouldBeAlive starts true (otherwise the loop thread exits at once and start() never resumes anything)"""
     ctx, tu, sy = E.ctx, E.tu, E.sy
@@ -1213,6 +1383,7 @@ def check_tu(ctx, tu):
         check_ctor(E, f, cl)
         for lam, op in cl:
             check_loop_exit(E, f, lam, op)
+    check_acks(E, per_ctor)
     if per_ctor and E.launch_kinds != {'thread', 'task'}:
         ctx.broken('R-C03-4: expected both launch methods (std::thread member and tasking::schedule) in the constructor, found %s'
                    % sorted(E.launch_kinds))
@@ -1228,6 +1399,8 @@ def run(ctx):
                      'flag set; threadShouldBeAlive starts true')
     ctx.describe(R4, 'destructor clears threadShouldBeAlive, notifies, joins iff joinable; the loop closure then reaches its end; '
                      'constructor launches the closure once and never detaches; the closure owns its state (no this, no references)')
+    ctx.describe(R5, 'acknowledgement flags: every flag value the destructor busy-waits for is stored by the loop thread on each of '
+                     'its exit paths (or the wait has another way out); stop()\'s wait on insideLoopBody is covered by R-C03-2')
     ctx.assume('start(), stop() and the destructor are called from one controlling thread at a time (the class documents no '
                'concurrent control)')
     ctx.assume('every AsyncLoopData member access inside AsyncLoop and its closures designates the one shared state object created '
@@ -1238,7 +1411,7 @@ def run(ctx):
         jobs += [dict(unit='drivers/c03_asyncloop.cpp', config=c) for c in ('INTERNAL', 'OMP', 'DEBUG')]
         jobs += [dict(unit='drivers/c03_asyncloop.cpp', config='TBB', std='gnu++17')]
     tus = ctx.front.parse_many(jobs)
-    totals = {R1: 0, R2: 0, R3: 0, R4: 0}
+    totals = {R1: 0, R2: 0, R3: 0, R4: 0, R5: 0}
     for tu in tus:
         E = check_tu(ctx, tu)
         if E is not None:
@@ -1251,5 +1424,6 @@ def run(ctx):
                                      'destructor + start() sets the flag + initial value of threadShouldBeAlive')
     ctx.floor(R4, totals[R4], 7 * k, 'per configuration: destructor + 2 x (constructor launch, closure capture list, closure '
                                      'termination)')
+    ctx.floor(R5, totals[R5], k, 'per configuration: the busy-wait of stop() on insideLoopBody (found through its helpers)')
     from rkstatic import selftest
     selftest.run(ctx)
